@@ -2,3 +2,381 @@
 // SPDX-License-Identifier: Apache-2.0
 
 //! verification hook drivers: sync
+//!
+//! Drives the real `IncrementalValueSync`, `OnceSync` and `PeriodicSync` state machines with a
+//! recording one-packet `WriteContext`. The frame writers are the same one-liners the stream
+//! module uses (`MAX_DATA` / `DATA_BLOCKED`), re-declared here because the originals are
+//! `pub(super)` in `crate::stream`.
+#![allow(dead_code, unused_imports, clippy::all)]
+
+use crate::{
+    contexts::{OnTransmitError, WriteContext},
+    sync::{IncrementalValueSync, OnceSync, PeriodicSync, ValueToFrameWriter},
+    transmission::{self, interest::Provider as _},
+};
+use core::{task::Poll, time::Duration};
+use s2n_codec::{DecoderBufferMut, EncoderBuffer, EncoderValue};
+use s2n_quic_core::{
+    endpoint,
+    event::{self, IntoEvent},
+    frame::{
+        ack_elicitation::{AckElicitable, AckElicitation},
+        DataBlocked, FrameMut, FrameTrait, MaxData,
+    },
+    packet::number::{PacketNumber, PacketNumberRange, PacketNumberSpace},
+    stream::StreamId,
+    time::{timer::Provider as _, Timestamp},
+    varint::VarInt,
+};
+
+pub fn pn(n: u64) -> PacketNumber {
+    PacketNumberSpace::ApplicationData.new_packet_number(VarInt::new(n).expect("pn"))
+}
+
+pub fn range(lo: u64, hi: u64) -> PacketNumberRange {
+    PacketNumberRange::new(pn(lo), pn(hi))
+}
+
+/// microseconds since the epoch of the virtual clock (0 is rounded up to 1 by `Timestamp`)
+pub fn ts(micros: u64) -> Timestamp {
+    unsafe { Timestamp::from_duration(Duration::from_micros(micros)) }
+}
+
+pub fn micros(t: Timestamp) -> u64 {
+    unsafe { t.as_duration().as_micros() as u64 }
+}
+
+pub fn constraint_of(c: u64) -> transmission::Constraint {
+    match c % 4 {
+        0 => transmission::Constraint::None,
+        1 => transmission::Constraint::RetransmissionOnly,
+        2 => transmission::Constraint::CongestionLimited,
+        _ => transmission::Constraint::AmplificationLimited,
+    }
+}
+
+fn interest_code(i: transmission::Interest) -> u8 {
+    match i {
+        transmission::Interest::None => 0,
+        transmission::Interest::NewData => 1,
+        transmission::Interest::LostData => 2,
+        transmission::Interest::Forced => 3,
+    }
+}
+
+/// Writes `MAX_DATA` frames (same body as `stream::incoming_connection_flow_controller`)
+#[derive(Default, Debug)]
+pub struct MaxDataWriter;
+
+impl ValueToFrameWriter<VarInt> for MaxDataWriter {
+    fn write_value_as_frame<W: WriteContext>(
+        &self,
+        value: VarInt,
+        _stream_id: StreamId,
+        context: &mut W,
+    ) -> Option<PacketNumber> {
+        context.write_frame(&MaxData {
+            maximum_data: value,
+        })
+    }
+}
+
+/// Writes `DATA_BLOCKED` frames (same body as `stream::outgoing_connection_flow_controller`)
+#[derive(Default, Debug)]
+pub struct DataBlockedWriter;
+
+impl ValueToFrameWriter<VarInt> for DataBlockedWriter {
+    fn write_value_as_frame<W: WriteContext>(
+        &self,
+        value: VarInt,
+        _stream_id: StreamId,
+        context: &mut W,
+    ) -> Option<PacketNumber> {
+        context.write_frame(&DataBlocked { data_limit: value })
+    }
+}
+
+/// A `WriteContext` for exactly one packet: every written frame is encoded, decoded again and
+/// its value recorded.
+pub struct OnePacket {
+    pub remaining: usize,
+    pub constraint: transmission::Constraint,
+    pub packet_number: PacketNumber,
+    pub now: Timestamp,
+    pub ack_elicitation: AckElicitation,
+    /// (frame tag, value carried) per written frame
+    pub frames: Vec<(u8, u64)>,
+}
+
+impl OnePacket {
+    pub fn new(capacity: usize, constraint: u64, packet_number: u64, now_micros: u64) -> Self {
+        Self {
+            remaining: capacity,
+            constraint: constraint_of(constraint),
+            packet_number: pn(packet_number),
+            now: ts(now_micros),
+            ack_elicitation: Default::default(),
+            frames: vec![],
+        }
+    }
+
+    fn record<Frame: EncoderValue + FrameTrait>(&mut self, frame: &Frame) {
+        let size = frame.encoding_size();
+        assert!(size <= self.remaining, "frame exceeds the remaining capacity");
+        let mut buf = vec![0u8; size];
+        {
+            let mut enc = EncoderBuffer::new(&mut buf[..]);
+            frame.encode(&mut enc);
+        }
+        self.remaining -= size;
+        self.ack_elicitation |= frame.ack_elicitation();
+        let tag = buf[0];
+        let decoder = DecoderBufferMut::new(&mut buf[..]);
+        let (frame, rest) = decoder
+            .decode::<FrameMut>()
+            .expect("written frame must decode");
+        assert!(rest.is_empty(), "one frame per write");
+        let value = match frame {
+            FrameMut::MaxData(f) => f.maximum_data.as_u64(),
+            FrameMut::DataBlocked(f) => f.data_limit.as_u64(),
+            _ => u64::MAX,
+        };
+        self.frames.push((tag, value));
+    }
+}
+
+impl WriteContext for OnePacket {
+    fn current_time(&self) -> Timestamp {
+        self.now
+    }
+
+    fn transmission_constraint(&self) -> transmission::Constraint {
+        self.constraint
+    }
+
+    fn transmission_mode(&self) -> transmission::Mode {
+        transmission::Mode::Normal
+    }
+
+    fn remaining_capacity(&self) -> usize {
+        self.remaining
+    }
+
+    fn write_frame<Frame>(&mut self, frame: &Frame) -> Option<PacketNumber>
+    where
+        Frame: EncoderValue + FrameTrait,
+        for<'frame> &'frame Frame: IntoEvent<event::builder::Frame>,
+    {
+        self.write_frame_forced(frame)
+    }
+
+    fn write_fitted_frame<Frame>(&mut self, frame: &Frame) -> PacketNumber
+    where
+        Frame: EncoderValue + FrameTrait,
+        for<'frame> &'frame Frame: IntoEvent<event::builder::Frame>,
+    {
+        self.record(frame);
+        self.packet_number
+    }
+
+    fn write_frame_forced<Frame>(&mut self, frame: &Frame) -> Option<PacketNumber>
+    where
+        Frame: EncoderValue + FrameTrait,
+        for<'frame> &'frame Frame: IntoEvent<event::builder::Frame>,
+    {
+        if frame.encoding_size() > self.remaining {
+            return None;
+        }
+        self.record(frame);
+        Some(self.packet_number)
+    }
+
+    fn ack_elicitation(&self) -> AckElicitation {
+        self.ack_elicitation
+    }
+
+    fn packet_number(&self) -> PacketNumber {
+        self.packet_number
+    }
+
+    fn local_endpoint_type(&self) -> endpoint::Type {
+        endpoint::Type::Server
+    }
+
+    fn header_len(&self) -> usize {
+        0
+    }
+
+    fn tag_len(&self) -> usize {
+        0
+    }
+}
+
+/// what one `on_transmit` call did
+#[derive(Clone, Copy, Debug, Default)]
+pub struct Tx {
+    /// number of frames written (0 or 1)
+    pub frames: u8,
+    pub tag: u8,
+    pub value: u64,
+    /// 0 = Ok, 1 = CouldNotWriteFrame, 2 = CouldNotAcquireEnoughSpace
+    pub result: u8,
+    pub ack_eliciting: bool,
+}
+
+fn tx_of(ctx: &OnePacket, r: Result<(), OnTransmitError>) -> Tx {
+    let (tag, value) = ctx.frames.last().copied().unwrap_or((0, 0));
+    Tx {
+        frames: ctx.frames.len() as u8,
+        tag,
+        value,
+        result: match r {
+            Ok(()) => 0,
+            Err(OnTransmitError::CouldNotWriteFrame) => 1,
+            Err(OnTransmitError::CouldNotAcquireEnoughSpace) => 2,
+        },
+        ack_eliciting: ctx.ack_elicitation.is_ack_eliciting(),
+    }
+}
+
+fn stream_id() -> StreamId {
+    StreamId::from_varint(VarInt::from_u32(0))
+}
+
+fn v(n: u64) -> VarInt {
+    VarInt::new(n).expect("values are below 2^62")
+}
+
+/// `IncrementalValueSync<VarInt, MAX_DATA writer>`
+pub struct Incremental {
+    pub sync: IncrementalValueSync<VarInt, MaxDataWriter>,
+}
+
+impl Incremental {
+    pub fn new(latest: u64, ackd: u64, threshold: u64) -> Self {
+        Self {
+            sync: IncrementalValueSync::new(v(latest), v(ackd), v(threshold)),
+        }
+    }
+    pub fn update_latest_value(&mut self, value: u64) {
+        self.sync.update_latest_value(v(value));
+    }
+    pub fn on_transmit(&mut self, capacity: usize, constraint: u64, pn: u64, now: u64) -> Tx {
+        let mut ctx = OnePacket::new(capacity, constraint, pn, now);
+        let r = self.sync.on_transmit(stream_id(), &mut ctx);
+        tx_of(&ctx, r)
+    }
+    pub fn on_packet_ack(&mut self, lo: u64, hi: u64) {
+        self.sync.on_packet_ack(&range(lo, hi));
+    }
+    pub fn on_packet_loss(&mut self, lo: u64, hi: u64) {
+        self.sync.on_packet_loss(&range(lo, hi));
+    }
+    pub fn stop_sync(&mut self) {
+        self.sync.stop_sync();
+    }
+    pub fn latest_value(&self) -> u64 {
+        self.sync.latest_value().as_u64()
+    }
+    pub fn interest(&self) -> u8 {
+        interest_code(self.sync.get_transmission_interest())
+    }
+    pub fn is_inflight(&self) -> bool {
+        self.sync.is_inflight()
+    }
+    pub fn is_cancelled(&self) -> bool {
+        self.sync.is_cancelled()
+    }
+}
+
+/// `OnceSync<VarInt, MAX_DATA writer>`
+pub struct Once {
+    pub sync: OnceSync<VarInt, MaxDataWriter>,
+}
+
+impl Once {
+    pub fn new() -> Self {
+        Self {
+            sync: OnceSync::new(),
+        }
+    }
+    pub fn request_delivery(&mut self, value: u64) {
+        self.sync.request_delivery(v(value));
+    }
+    pub fn force_delivery(&mut self, value: u64) {
+        self.sync.force_delivery(v(value));
+    }
+    pub fn on_transmit(&mut self, capacity: usize, constraint: u64, pn: u64, now: u64) -> Tx {
+        let mut ctx = OnePacket::new(capacity, constraint, pn, now);
+        let r = self.sync.on_transmit(stream_id(), &mut ctx);
+        tx_of(&ctx, r)
+    }
+    /// true = `Poll::Ready` (the delivery completed with this acknowledgement)
+    pub fn on_packet_ack(&mut self, lo: u64, hi: u64) -> bool {
+        self.sync.on_packet_ack(&range(lo, hi)).is_ready()
+    }
+    pub fn on_packet_loss(&mut self, lo: u64, hi: u64) {
+        self.sync.on_packet_loss(&range(lo, hi));
+    }
+    pub fn stop_sync(&mut self) {
+        self.sync.stop_sync();
+    }
+    pub fn interest(&self) -> u8 {
+        interest_code(self.sync.get_transmission_interest())
+    }
+    pub fn is_inflight(&self) -> bool {
+        self.sync.is_inflight()
+    }
+    pub fn is_cancelled(&self) -> bool {
+        self.sync.is_cancelled()
+    }
+}
+
+/// `PeriodicSync<VarInt, DATA_BLOCKED writer>`
+pub struct Periodic {
+    pub sync: PeriodicSync<VarInt, DataBlockedWriter>,
+}
+
+impl Periodic {
+    pub fn new() -> Self {
+        Self {
+            sync: PeriodicSync::new(),
+        }
+    }
+    pub fn request_delivery(&mut self, value: u64) {
+        self.sync.request_delivery(v(value));
+    }
+    pub fn skip_delivery(&mut self, now: u64) {
+        self.sync.skip_delivery(ts(now));
+    }
+    pub fn on_timeout(&mut self, now: u64) {
+        self.sync.on_timeout(ts(now));
+    }
+    pub fn update_sync_period(&mut self, micros: u64) {
+        self.sync.update_sync_period(Duration::from_micros(micros));
+    }
+    pub fn on_transmit(&mut self, capacity: usize, constraint: u64, pn: u64, now: u64) -> Tx {
+        let mut ctx = OnePacket::new(capacity, constraint, pn, now);
+        let r = self.sync.on_transmit(stream_id(), &mut ctx);
+        tx_of(&ctx, r)
+    }
+    pub fn on_packet_ack(&mut self, lo: u64, hi: u64) {
+        self.sync.on_packet_ack(&range(lo, hi));
+    }
+    pub fn on_packet_loss(&mut self, lo: u64, hi: u64) {
+        self.sync.on_packet_loss(&range(lo, hi));
+    }
+    pub fn stop_sync(&mut self) {
+        self.sync.stop_sync();
+    }
+    pub fn has_delivered(&self) -> bool {
+        self.sync.has_delivered()
+    }
+    pub fn interest(&self) -> u8 {
+        interest_code(self.sync.get_transmission_interest())
+    }
+    /// expiration of the delivery timer in microseconds, `None` when it is not armed
+    pub fn timer(&self) -> Option<u64> {
+        self.sync.next_expiration().map(micros)
+    }
+}
